@@ -208,11 +208,14 @@ def c05(res, tier, seed):
             queues.setdefault(ns, []).append(src)
         queues["other_ns"] = ["global rule never { condition: false }\nrule x { condition: true }\nrule r_true_x { condition: false }\n"
                               "rule r_false_x { condition: true }\nrule r_tx { condition: false }"]
+        # a namespace that is never the first one, fed by two add-source calls: a false global rule in the first, an always-true
+        # rule in the second, which therefore never matches (a rule holds iff its condition and the global rules of ITS namespace hold)
+        queues["zgate"] = ["global rule gate_false { condition: false }", "rule gx%d { condition: true }" % si]
         ordered = []
         if r.random() < 0.5:       # the foreign namespace is compiled first
             ordered.append(("other_ns", queues.pop("other_ns")[0]))
         while queues:
-            ns = r.choice(sorted(queues))
+            ns = r.choice(sorted(k for k in queues if not (k == "zgate" and not ordered)) or sorted(queues))
             ordered.append((ns, queues[ns].pop(0)))
             if not queues[ns]:
                 del queues[ns]
@@ -318,6 +321,11 @@ def c05(res, tier, seed):
             for bi, b in enumerate(s["bufs"]):
                 if p["rets"][bi] != 0:
                     continue
+                gx = p["scans"][bi].get(("zgate", "gx%d" % (ci + si)))
+                if gx is not None and bi == 0:
+                    records.append({"kind": "cond", "ast": {"t": "and", "l": {"t": "rule", "name": "gate_false"}, "r": {"t": "true"}},
+                                    "env": {"buf": [], "filesize": 0, "entrypoint": -1, "m": {x: [] for x in cg.STRS}, "ext": cond.EXT_ENV, "rules": {"gate_false": False}}, "obs": gx["verdict"]})
+                    owners.append(("rule gx in namespace zgate behind `global rule gate_false { condition: false }` added by an earlier call", b.hex(), {}, gx["verdict"], len(s["cases"]), ci + si))
                 for c in s["cases"]:
                     key = (s["nsname"](s["placement"][c["name"]]), c["name"])
                     o = p["scans"][bi].get(key)
